@@ -1071,7 +1071,7 @@ def run(ctx):
     for f in sorted(cdir.glob('*.json')) if cdir.is_dir() else []:
         replay(ctx, json.loads(f.read_text()), from_corpus=True)
     quick = ctx.tier == 'quick'
-    n_refs = 40 if quick else 220
+    n_refs = 32 if quick else 220
     n_splits = 4 if quick else 6
     for i in range(n_refs):
         ref = Reference(rng, small=(i % 3 == 0))
